@@ -193,7 +193,9 @@ def m_warn(I, args, kwargs, node):
 def external_objects():
     import warnings
     import pandas as pd
-    return {pd.Categorical: m_Categorical, warnings.warn: m_warn}
+    # (one model for both forms of pd.Categorical - with and without categories= - so that the order in which contract modules
+    # register their externals does not decide which form is understood)
+    return {pd.Categorical: lambda I, args, kwargs, node: m_Categorical2(I, args, kwargs, node), warnings.warn: m_warn}
 
 
 # ---------------------------------------------------------------------------------------------
